@@ -153,7 +153,12 @@ func (s *c10) genBlock(r *kit.Rng) []*wire.MsgTx {
 			if r.Chance(1, 2) {
 				d = s.pool[r.Intn(len(s.pool))]
 			}
+			pushStyle = 0
+			if r.Chance(1, 6) {
+				pushStyle = 1 + r.Intn(2) // non-canonical push encodings
+			}
 			outs = append(outs, makeScript(kind, d, r.Bytes(5)))
+			pushStyle = 0
 		}
 		tx := buildTx(1, ins, outs, uint32(r.Intn(1<<20)))
 		txs = append(txs, tx)
@@ -244,10 +249,26 @@ func (s *c10) Gen(r *kit.Rng) (kit.Op, bool) {
 		tx := s.lastTxs[r.Intn(len(s.lastTxs))]
 		return kit.Op{K: "deliver", D: kit.Hex(serTx(tx))}, true
 	default:
-		if len(s.lastTxs) == 0 || r.Chance(2, 3) {
+		if len(s.lastTxs) == 0 || r.Chance(1, 2) {
 			s.lastTxs = s.genBlock(r)
 		}
-		txs, name := orderTxs(r, s.lastTxs)
+		src := s.lastTxs
+		if len(src) > 1 && r.Chance(1, 2) {
+			// only part of the generated transactions: consecutive scans then
+			// see related but different blocks (a child in one scan, its
+			// parent in a later one) - state kept from one scan to the next
+			// shows up here
+			var sub []*wire.MsgTx
+			for _, t := range src {
+				if r.Chance(1, 2) {
+					sub = append(sub, t)
+				}
+			}
+			if len(sub) > 0 {
+				src = sub
+			}
+		}
+		txs, name := orderTxs(r, src)
 		return kit.Op{K: "scan", S: txsHex(txs), N: []int64{int64(r.Intn(3)), int64(r.Intn(len(txs)+2) - 1)}, D: kit.Hex([]byte(name))}, true
 	}
 }
